@@ -187,7 +187,8 @@
 #define TYPE(key, instr_type) (INSTR_TABLE[(key)].type == (instr_type))
 #define NAME(key, instr_name) (INSTR_TABLE[(key)].name == (instr_name))
 
-// various length nop instructions
+// various length nop instructions (the longest has MAX_NOP_LEN bytes)
+#define MAX_NOP_LEN 11
 #define NOP 0x90
 #define NOP2 0x66, 0x90
 #define NOP3 0x0f, 0x1f, 0x00
